@@ -10,6 +10,6 @@ def calc_ast_hash(a: ast.AST) -> str:
     including the input datasets
     """
 
-    b = bytearray()
-    b.extend(map(ord, ast.dump(a)))
-    return hashlib.md5(b).hexdigest()
+    # One byte per character works for Latin-1 text only: any other character in a string
+    # constant or a name (a greek letter, say) could not be hashed at all.
+    return hashlib.md5(ast.dump(a).encode("utf-8")).hexdigest()
